@@ -752,7 +752,10 @@ pub fn script_scenario(prop: &str, shape: Shape, scripts: Vec<Vec<Op>>, oracle: 
                 // which arrival produced this output
                 let by_a = shape == Shape::WithLatestFrom || prev.map_or(true, |(pi, _)| i != pi);
                 let by_b = shape == Shape::CombineLatest && prev.map_or(true, |(_, pj)| j != pj);
-                if by_a && !(by_b && prev.is_none()) {
+                // (claims only for calls that had returned before any terminal or
+                // teardown call started: an unsubscribe in progress may already have
+                // detached one input while the other still delivers)
+                if by_a && !(by_b && prev.is_none()) && ac[i].end < quiet_until {
                   // partner values whose call had returned before this a-call started
                   let newest = bc.iter().rposition(|c| c.end < ac[i].start);
                   if let Some(l) = newest {
@@ -764,7 +767,7 @@ pub fn script_scenario(prop: &str, shape: Shape, scripts: Vec<Vec<Op>>, oracle: 
                     }
                   }
                 }
-                if by_b && !by_a {
+                if by_b && !by_a && bc[j].end < quiet_until {
                   let newest = ac.iter().rposition(|c| c.end < bc[j].start);
                   if let Some(l) = newest {
                     if i < l {
@@ -2204,7 +2207,7 @@ pub fn plan(prop: &str, tier: Tier) -> Option<Plan> {
       })
     }
     "C07" => {
-      let c = if q { 1 } else { 3 };
+      let c = if q { 1 } else { 2 };
       for shape in [Shape::ObserveOn, Shape::Delay] {
         for s in [
           vec![vec![Op::NextA(1), Op::NextA(2)]],
